@@ -81,7 +81,7 @@ TOTAL_FUNCS = [
     "docutils.utils.new_document", "docutils.utils.unescape", "docutils.utils.get_source_line", "docutils.languages.get_language",
     "docutils.parsers.rst.languages.get_language", "docutils.statemachine.StringList", "docutils.utils.code_analyzer.NumberLines",
     "docutils.parsers.rst.directives.body.NumberLines", "docutils.parsers.rst.directives.body.CodeBlock",
-    "docutils.parsers.rst.directives.directive", "docutils.parsers.rst.roles.role", "docutils.parsers.rst.states.Body.*",
+    "docutils.parsers.rst.directives.directive", "docutils.parsers.rst.roles.role", "docutils.parsers.rst.roles._roles.*", "docutils.parsers.rst.states.Body.*",
     "docutils.parsers.rst.directives.misc.*", "docutils.core.Publisher", "docutils.parsers.rst.DirectiveError",
     "docutils.parsers.rst.states.MarkupError", "docutils.parsers.rst.Parser", "docutils.writers.html5_polyglot.*",
     "sphinx.ext.intersphinx.InventoryAdapter", "sphinx.util.docname_join", "sphinx.util.nodes.clean_astext",
